@@ -118,6 +118,10 @@ _wire("C07", 40, 900,
       ["the nonce of a connection is extracted from the ClientHello bytes captured by simnet",
        "an honest dial is required to succeed iff some stored chain is valid now and issued by a root the server currently holds (computed with crypto/x509 from both storages)",
        "kernel dialing is replaced by protocol.SimDial; address parsing and SNI selection still run"])
+_wire("C17", 40, 900,
+      "each run builds a SplitListener over the real listener with a tape-chosen set of sub-listeners (three specific names, __AUTH__, __UNAUTH__, each present or not, native connections on/off, GetListener sometimes called twice) and an application base TLS config in {none, no ALPN, fixed protocols, mirroring whatever the client offers}; 3-9 clients follow: authenticated nodes with extra-protocol lists (matching none / one / several registered names, the reserved names, near-misses), base-TLS clients offering tape-ordered lists that include the reserved names, registered names, near-misses and names under the certificate-preference prefix, fetch-only (unauthorized) nodes and raw garbage; finally the base listener is closed. All goroutines (split loop, one acceptor per sub-listener, clients) run under the seeded lock-aware scheduler. Non-trivial: all; distinct by (client kind, offered names, registered set, destination, negotiated protocol).",
+      ["which of several matching specific sub-listeners receives an authenticated connection is not judged (sync.Map iteration order)",
+       "a 'mirroring' application base config is part of the configuration space: the statement quantifies over base-TLS clients offering arbitrary names"])
 
 HOOK_COMMITS = ["54f90f1 (H2: net/splitlistener.go scheduling points + net/verif_hook_{on,off}.go)",
                 "c914c74 (H1: protocol/dialer.go SimDial seam + protocol/verif_hook_{on,off}.go)"]
@@ -128,6 +132,7 @@ NOT_APPLICABLE["C20"] = ("pure function of its arguments (BreakIntoNextProtos/Co
                          "its failure modes are reached by the simulated workloads of C14 (malformed entries in a hostile ClientHello) and C07/C16 (honest payloads needing >99 chunks)")
 
 LEVEL_TEXT = {
+    "C17": "seeded simulation of authenticated, base-TLS, fetch-only and garbage clients against the real SplitListener stack under the deterministic scheduler; each delivery is judged against a routing model (authenticated peers only on non-__UNAUTH__ listeners, destination rule, connection type, closure).",
     "C07": "seeded simulation of honest dial histories across root rotations, of the pending-then-authorized path, and of rogue-server constructions; every completed dial is checked against the node's stored roots and the connection's own nonce, every expected-successful dial must succeed.",
     "C16": "seeded simulation of honest dials with varied client state and ALPN extras against the real listener; the application-visible metadata is compared with what the node supplied and with the ClientHello captured on the simulated wire; adversarial unsigned/forged state must never reach the application.",
     "C02": "seeded simulation of honest and adversarial TLS peers against the real listener across register/remove/rotate histories; every authenticated connection is judged by a reference model recomputed from server storage and from what was actually sent.",
